@@ -60,10 +60,28 @@ const (
 	kRSA
 	kRSAPSS
 	kEd25519
+	kP224
+	kP521
+	kRSA1024    // the second fixed RSA key (1024 bit), PKCS#1 v1.5
+	kRSA1024PSS // the same key, RSASSA-PSS (SHA-512 does not fit: emLen 128 < 64+64+2)
 	nKeyTypes
 )
 
-var keyTypeNames = []string{"sm2", "p256", "p384", "rsa", "rsapss", "ed25519"}
+var keyTypeNames = []string{"sm2", "p256", "p384", "rsa", "rsapss", "ed25519", "p224", "p521", "rsa1024", "rsa1024pss"}
+
+func isRSA(kt int) bool { return kt == kRSA || kt == kRSAPSS || kt == kRSA1024 || kt == kRSA1024PSS }
+
+func isECDSA(kt int) bool { return kt == kP224 || kt == kP256 || kt == kP384 || kt == kP521 }
+
+// subjectKey derives a subject key of type kt that is not the signer's key
+// (the RSA types share two fixed keys).
+func subjectKey(kt int, seed uint64, signer crypto.Signer) crypto.Signer {
+	k := newKey(kt, seed, false)
+	if pubEqual(k.Public(), signer.Public()) {
+		k = newKey(kt, seed, true)
+	}
+	return k
+}
 
 var (
 	rsaMain  = testkeys.RSA2048()
@@ -84,11 +102,8 @@ func newKey(kt int, seed uint64, alt bool) crypto.Signer {
 			panic(fmt.Sprintf("harness: sm2.NewPrivateKey: %v", err))
 		}
 		return k
-	case kP256, kP384:
-		c := elliptic.P256()
-		if kt == kP384 {
-			c = elliptic.P384()
-		}
+	case kP256, kP384, kP224, kP521:
+		c := map[int]elliptic.Curve{kP256: elliptic.P256(), kP384: elliptic.P384(), kP224: elliptic.P224(), kP521: elliptic.P521()}[kt]
 		k, err := ecdsa.GenerateKey(c, gen.NewDetReader(gen.Mix(seed, 0xec)))
 		if err != nil {
 			panic(fmt.Sprintf("harness: ecdsa.GenerateKey: %v", err))
@@ -99,30 +114,42 @@ func newKey(kt int, seed uint64, alt bool) crypto.Signer {
 			return rsaOther
 		}
 		return rsaMain
+	case kRSA1024, kRSA1024PSS:
+		if alt {
+			return rsaMain
+		}
+		return rsaOther
 	case kEd25519:
 		return ed25519.NewKeyFromSeed(gen.Fill(gen.Mix(seed, 0xed), 32))
 	}
 	panic("harness: bad key type")
 }
 
+// sigAlgs lists, per signer key type, every SignatureAlgorithm value the
+// template field may select and verification accepts (0 = the documented
+// default). The SHA-1 based ones and everything that must be refused are the
+// subject of TestC15_AlgorithmMatrix.
+var sigAlgs = map[int][]x509.SignatureAlgorithm{
+	kSM2:        {0, sm2WithSM3},
+	kP224:       {0, x509.ECDSAWithSHA256, x509.ECDSAWithSHA384, x509.ECDSAWithSHA512},
+	kP256:       {0, x509.ECDSAWithSHA256, x509.ECDSAWithSHA384, x509.ECDSAWithSHA512},
+	kP384:       {0, x509.ECDSAWithSHA384, x509.ECDSAWithSHA256, x509.ECDSAWithSHA512},
+	kP521:       {0, x509.ECDSAWithSHA512, x509.ECDSAWithSHA256, x509.ECDSAWithSHA384},
+	kRSA:        {0, x509.SHA256WithRSA, x509.SHA384WithRSA, x509.SHA512WithRSA},
+	kRSAPSS:     {x509.SHA256WithRSAPSS, x509.SHA384WithRSAPSS, x509.SHA256WithRSAPSS, x509.SHA512WithRSAPSS},
+	kRSA1024:    {0, x509.SHA256WithRSA, x509.SHA384WithRSA, x509.SHA512WithRSA},
+	kRSA1024PSS: {x509.SHA256WithRSAPSS, x509.SHA384WithRSAPSS},
+	kEd25519:    {0, x509.PureEd25519},
+}
+
 // sigAlgFor returns the signature algorithm requested in the template for a
-// signer key type; variant selects among the hashes the property lists.
+// signer key type; variant selects among the algorithms of that key type.
 func sigAlgFor(kt, variant int) x509.SignatureAlgorithm {
-	switch kt {
-	case kSM2:
-		return 0 // the default for an SM2 key is SM2WithSM3; nothing else is allowed
-	case kP256:
-		return []x509.SignatureAlgorithm{0, x509.ECDSAWithSHA256, x509.ECDSAWithSHA384}[variant%3]
-	case kP384:
-		return []x509.SignatureAlgorithm{0, x509.ECDSAWithSHA384, x509.ECDSAWithSHA256}[variant%3]
-	case kRSA:
-		return []x509.SignatureAlgorithm{0, x509.SHA256WithRSA, x509.SHA384WithRSA, x509.SHA512WithRSA}[variant%4]
-	case kRSAPSS:
-		return []x509.SignatureAlgorithm{x509.SHA256WithRSAPSS, x509.SHA384WithRSAPSS, x509.SHA256WithRSAPSS, x509.SHA512WithRSAPSS}[variant%4]
-	case kEd25519:
-		return []x509.SignatureAlgorithm{0, x509.PureEd25519}[variant%2]
+	l := sigAlgs[kt]
+	if variant < 0 {
+		variant = -variant
 	}
-	panic("harness: bad key type")
+	return l[variant%len(l)]
 }
 
 const sm2WithSM3 = smx509.SM2WithSM3
@@ -135,11 +162,13 @@ func effectiveAlg(kt int, req x509.SignatureAlgorithm) x509.SignatureAlgorithm {
 	switch kt {
 	case kSM2:
 		return sm2WithSM3
-	case kP256:
+	case kP224, kP256:
 		return x509.ECDSAWithSHA256
 	case kP384:
 		return x509.ECDSAWithSHA384
-	case kRSA, kRSAPSS:
+	case kP521:
+		return x509.ECDSAWithSHA512
+	case kRSA, kRSAPSS, kRSA1024, kRSA1024PSS:
 		return x509.SHA256WithRSA
 	default:
 		return x509.PureEd25519
@@ -566,7 +595,7 @@ func selfTestVerifier() error {
 		}
 	}
 	// standard-library certificates
-	for _, kt := range []int{kP256, kP384, kRSA, kRSAPSS, kEd25519} {
+	for _, kt := range []int{kP256, kP384, kRSA, kRSAPSS, kEd25519, kP224, kP521, kRSA1024, kRSA1024PSS} {
 		key := newKey(kt, 77, false)
 		other := newKey(kt, 78, true)
 		tmpl := &x509.Certificate{
